@@ -246,3 +246,118 @@ func isRangeIndex(v ssa.Value) bool {
 	}
 	return start && self
 }
+
+// firstMatch describes a finder helper: `for _, e := range <list> { if pred(e.<field>) { return e } }; return nil`.
+type firstMatch struct {
+	listKey  string // field key of the list (read from a parameter), "" when the list is the parameter itself
+	pred     string // name of the predicate function
+	fieldKey string // field of the element the predicate is applied to ("" when applied to the element itself)
+}
+
+// firstMatchHelper recognises a finder by its shape. `h(x) != nil` then means "some element of the list satisfies pred",
+// and a use of the result under that test is a use of the first such element.
+func firstMatchHelper(h *ssa.Function) (firstMatch, bool) {
+	var zero firstMatch
+	h = originOrSelf(h)
+	if h == nil || len(h.Blocks) == 0 || !strings.HasPrefix(fnPkgPath(h), modPath) || h.Signature.Results().Len() != 1 {
+		return zero, false
+	}
+	if _, isPtr := h.Signature.Results().At(0).Type().Underlying().(*types.Pointer); !isPtr {
+		return zero, false
+	}
+	hs, _ := loopExits(h)
+	if hs != 1 {
+		return zero, false
+	}
+	var fm firstMatch
+	nElemRet, nNilRet := 0, 0
+	for _, r := range returnsOf(h) {
+		v := r.Results[0]
+		if isNilConst(v) {
+			nNilRet++
+			continue
+		}
+		ld, ok := v.(*ssa.UnOp)
+		if !ok || ld.Op != token.MUL {
+			return zero, false
+		}
+		ia, ok := ld.X.(*ssa.IndexAddr)
+		if !ok || !isRangeIndex(ia.Index) {
+			return zero, false
+		}
+		// the list: a parameter or a field of a parameter
+		switch lx := ia.X.(type) {
+		case *ssa.Parameter:
+		case *ssa.UnOp:
+			fa, ok := lx.X.(*ssa.FieldAddr)
+			if !ok {
+				return zero, false
+			}
+			if _, isP := fa.X.(*ssa.Parameter); !isP {
+				return zero, false
+			}
+			fm.listKey = fieldKey(fa)
+		default:
+			return zero, false
+		}
+		// returned under exactly one test besides the loop condition: pred(elem.field)
+		nTests := 0
+		for _, iff := range controllingIfs(r) {
+			if bo, isB := iff.Cond.(*ssa.BinOp); isB && bo.Op == token.LSS && strings.HasPrefix(iff.Block().Comment, "rangeindex.loop") {
+				continue
+			}
+			call, isCall := iff.Cond.(*ssa.Call)
+			if !isCall || call.Common().StaticCallee() == nil || len(call.Common().Args) != 1 {
+				return zero, false
+			}
+			if !(iff.Block().Succs[0] == r.Block() || iff.Block().Succs[0].Dominates(r.Block())) {
+				return zero, false
+			}
+			nTests++
+			fm.pred = call.Common().StaticCallee().Name()
+			a := call.Common().Args[0]
+			if al, ok := a.(*ssa.UnOp); ok && al.Op == token.MUL {
+				if fa, ok := al.X.(*ssa.FieldAddr); ok && fa.X == ssa.Value(ld) {
+					fm.fieldKey = fieldKey(fa)
+				} else if al == ld || al.X == ld.X {
+					fm.fieldKey = ""
+				} else {
+					return zero, false
+				}
+			} else {
+				return zero, false
+			}
+		}
+		if nTests != 1 {
+			return zero, false
+		}
+		nElemRet++
+	}
+	if nElemRet != 1 || nNilRet == 0 {
+		return zero, false
+	}
+	return fm, true
+}
+
+// firstMatchTest: v is `h(x) != nil` (or its negation's operand) for a finder helper h; returns the helper's description.
+func firstMatchTest(v ssa.Value) (firstMatch, *ssa.Call, bool) {
+	bo, ok := resolve(v).(*ssa.BinOp)
+	if !ok || (bo.Op != token.NEQ && bo.Op != token.EQL) {
+		return firstMatch{}, nil, false
+	}
+	var side ssa.Value
+	switch {
+	case isNilConst(bo.Y):
+		side = bo.X
+	case isNilConst(bo.X):
+		side = bo.Y
+	default:
+		return firstMatch{}, nil, false
+	}
+	call, ok := resolve(side).(*ssa.Call)
+	if !ok || call.Common().StaticCallee() == nil {
+		return firstMatch{}, nil, false
+	}
+	fm, ok := firstMatchHelper(call.Common().StaticCallee())
+	return fm, call, ok
+}
